@@ -18,6 +18,7 @@ mod diff;
 #[cfg(feature = "std")]
 mod mon_exec;
 mod mon_c06;
+mod replay;
 mod mon_c18;
 mod mon_c10;
 mod mon_c09;
@@ -86,6 +87,10 @@ fn main() {
         return;
     }
     sys::install_panic_hook();
+    if a.prop == "replay" {
+        let path = std::env::args().nth(2).unwrap_or_default();
+        std::process::exit(replay::run(&path));
+    }
     let mut rep = report::Report::new(&a.prop, &a.variant);
     let t0 = std::time::Instant::now();
     match a.prop.as_str() {
